@@ -18,6 +18,11 @@ arbitrary naturals.  `Model/DlcLlc.lean` composes the steps into `collect()`
 The theorems quantify over all step sequences; what they cannot exhibit is a
 preemption *inside* one critical section (atomicity of a step rests on the
 `with self.lock` regions of `tco.py`).
+
+That the PDUs of a connection reach exactly its two endpoints when the service
+access point holds further sockets (listening socket, other connections, stale
+sockets of earlier connections from the same source address) is the subject of
+`Props/C05Sap.lean`.
 -/
 namespace NfcVerif.C05
 open NfcVerif NfcVerif.Dlc
